@@ -190,6 +190,9 @@ class Interp:
                 return self._exec(i, st)
             finally:
                 REG.fault = None
+        if st.get("guard_off") and self.backend == "mg":
+            with self.mg.mem_guard_off:
+                return self._exec(i, st)
         return self._exec(i, st)
 
     def _exec(self, i, st):
